@@ -78,9 +78,12 @@ func vLight(proto Protocol, queue int, maxPacket int32, withClock bool) (*report
 		tagCache:        cache.NewTagCache(),
 	}
 	r.now.Store(1234567) // a concrete clock: the timestamp's variable-length encoding must not fork the schedules
-	nop := noopMetric{}
-	r.batchSizeHistogram = nopHistogram{}
-	r.numBatchesCounter, r.numMetricsCounter, r.numWriteErrorsCounter, r.numTagCacheCounter = nop, nop, nop, nop
+	r.buckets = tally.BucketPairs(tally.ValueBuckets{0, 2, 4})
+	r.batchSizeHistogram = r.AllocateHistogram("tally.internal.batch-size", nil, tally.ValueBuckets{0, 2, 4})
+	r.numBatchesCounter = r.AllocateCounter("tally.internal.num-batches", nil)
+	r.numMetricsCounter = r.AllocateCounter("tally.internal.num-metrics", nil)
+	r.numWriteErrorsCounter = r.AllocateCounter("tally.internal.num-write-errors", nil)
+	r.numTagCacheCounter = r.AllocateCounter("tally.internal.num-tag-cache", nil)
 	r.wg.Add(1)
 	go func() {
 		defer r.wg.Done()
